@@ -73,6 +73,7 @@ type HarnessSpec struct {
 	Solver   string
 	Witness  int // number of ok paths for which a model is extracted
 	Deadline time.Time
+	Dual     *World // second program: the harness is run in both and their emits compared
 }
 
 // Report aggregates all paths of one harness.
@@ -222,7 +223,7 @@ func (w *World) Explore(spec HarnessSpec) (*Report, error) {
 				wantWitness := len(rep.Witnesses) < spec.Witness
 				mu.Unlock()
 
-				out, sibs := w.runPath(fn, prefix, &cfg, sol, wantWitness)
+				out, sibs := w.runPath(fn, prefix, &cfg, sol, wantWitness, spec.Dual)
 
 				mu.Lock()
 				active--
@@ -326,8 +327,22 @@ func (w *World) newInterp(cfg *Config, sol *Solver, prefix []Decision) *Interp {
 	return in
 }
 
+// newInterpShared creates the interpreter of the second program of a dual run: it
+// shares terms, solver session, path state and outcome with a.
+func (w *World) newInterpShared(a *Interp) *Interp {
+	in := &Interp{
+		prog: w.Prog, st: a.st, sol: a.sol, ps: a.ps, cfg: a.cfg, globals: map[*ssa.Global]*Cell{}, out: a.out,
+		varCount: map[string]int{}, sentinel: map[string]Value{}, concrete: map[string]uint64{}, ext: map[string]interface{}{},
+		world: w, constCache: map[*ssa.Const]Value{}, strCache: map[string]StrV{}, bounds: a.bounds,
+	}
+	in.growExact = a.growExact
+	in.nextCell = a.nextCell + 1000000
+	in.nextID = a.nextID + 1000000
+	return in
+}
+
 // runPath executes the harness once along prefix.
-func (w *World) runPath(fn *ssa.Function, prefix []Decision, cfg *Config, sol *Solver, wantWitness bool) (out *Outcome, sibs [][]Decision) {
+func (w *World) runPath(fn *ssa.Function, prefix []Decision, cfg *Config, sol *Solver, wantWitness bool, dual *World) (out *Outcome, sibs [][]Decision) {
 	start := time.Now()
 	in := w.newInterp(cfg, sol, prefix)
 	out = in.out
@@ -416,6 +431,10 @@ func (w *World) runPath(fn *ssa.Function, prefix []Decision, cfg *Config, sol *S
 		sibs = in.ps.siblings
 		sol.EndPath()
 	}()
+	if dual != nil {
+		w.runDual(in, fn, dual)
+		return
+	}
 	// package initialisers
 	if fn.Pkg != nil {
 		if initFn := fn.Pkg.Func("init"); initFn != nil {
@@ -424,4 +443,66 @@ func (w *World) runPath(fn *ssa.Function, prefix []Decision, cfg *Config, sol *S
 	}
 	in.callFn(nil, fn, nil, nil)
 	return
+}
+
+// runSide runs the harness in one program, turning an uncaught Go panic into an emit.
+func runSide(in *Interp, fn *ssa.Function) {
+	defer func() {
+		if r := recover(); r != nil {
+			gp, ok := r.(goPanic)
+			if !ok {
+				panic(r)
+			}
+			in.emits = append(in.emits, emitRec{label: "panic", text: "panicked"})
+			_ = gp
+		}
+	}()
+	if fn.Pkg != nil {
+		if initFn := fn.Pkg.Func("init"); initFn != nil {
+			in.callFn(nil, initFn, nil, nil)
+		}
+	}
+	in.callFn(nil, fn, nil, nil)
+}
+
+// runDual executes the same harness in two programs on the same symbolic inputs
+// and asserts that everything they emit is equal.
+func (w *World) runDual(a *Interp, fn *ssa.Function, other *World) {
+	runSide(a, fn)
+	fnB := other.FindFunc(fn.Pkg.Pkg.Path(), fn.Name())
+	if fnB == nil {
+		panic("dual harness missing in second program")
+	}
+	b := other.newInterpShared(a)
+	b.reuse = a.concrete
+	b.co = a.co
+	runSide(b, fnB)
+	a.in2 = b
+	st := a.st
+	n := len(a.emits)
+	if len(b.emits) != n {
+		a.out.Msg = fmt.Sprintf("programs emit %d vs %d values", len(a.emits), len(b.emits))
+		if len(b.emits) < n {
+			n = len(b.emits)
+		}
+		// a panic on one side only shows up here
+		for i := 0; i < n; i++ {
+			if a.emits[i].label != b.emits[i].label {
+				break
+			}
+		}
+		a.checkAssert(st.False, "dual:shape")
+	}
+	for i := 0; i < n; i++ {
+		x, y := a.emits[i], b.emits[i]
+		if x.label != y.label || len(x.terms) != len(y.terms) || x.text != y.text {
+			a.out.Msg = fmt.Sprintf("emit %d differs in shape: %s/%d/%s vs %s/%d/%s", i, x.label, len(x.terms), x.text, y.label, len(y.terms), y.text)
+			a.checkAssert(st.False, "dual:shape")
+		}
+		eq := st.True
+		for j := range x.terms {
+			eq = st.BAnd(eq, st.Eq(x.terms[j], y.terms[j]))
+		}
+		a.checkAssert(eq, "dual:"+x.label)
+	}
 }
